@@ -49,7 +49,9 @@ Entries ==
 VARIABLE w
 Init == w = <<>>
 Push(e) == Len(w) < MaxLen /\ w' = Append(w, e)
-Next == \E e \in Entries : Push(e)
+(* the first entry again at the end: a NON-ADJACENT repetition (seen-sets that only remember the previous key miss it) *)
+Repeat == Len(w) = MaxLen /\ MaxLen >= 2 /\ w[1][1] # w[Len(w)][1] /\ w' = Append(w, w[1])
+Next == (\E e \in Entries : Push(e)) \/ Repeat
 Spec == Init /\ [][Next]_w
 
 Item == Map(w)
